@@ -30,18 +30,29 @@ GOT = []
 def child(x: int) -> int:
     return x
 
+MODE = [0]
+REF = {}
 def main_body(tag: int):
     t = APPX["main"]
-    inv = yield from coop._coop_call(t.wf.deterministic, "execute_task", APPX["child"], 7)
-    GOT.append((tag, inv.invocation_id))
+    if MODE[0] == 0:
+        inv = yield from coop._coop_call(t.wf.deterministic, "execute_task", APPX["child"], 7)
+        GOT.append((tag, inv.invocation_id))
+    else:
+        ex = t.wf.deterministic
+        r = yield from coop._coop_call(ex, "random")
+        u = yield from coop._coop_call(ex, "uuid")
+        tm = yield from coop._coop_call(ex, "utc_now")
+        r2 = yield from coop._coop_call(ex, "random")
+        GOT.append((tag, (r, u, r2)))          # (utc_now is anchored on the wall-clock time of the first request: not comparable between two runs)
     raise RetryError("stay re-executable")
 
 pctx.thread_local = coop.ActorLocal()
 wd.threading = coop.CoopThreading()            # a lock added to the executor must be cooperative in this simulation
 if hasattr(wd, "Future"):
     wd.Future = coop.CoopFuture
-ALL = {"run", "execute_task", "result"}
-coop.yieldify(wd.DeterministicExecutor, ["execute_task"], all_names=ALL)
+ALL = {"run", "execute_task", "result", "random", "uuid", "utc_now", "_deterministic_operation"}
+coop.yieldify(wd.DeterministicExecutor, ["execute_task", "random", "uuid", "utc_now", "_deterministic_operation"], all_names=ALL,
+              nested_defs=True, gen_calls={"generator"})
 coop.yieldify(DistributedInvocation, ["run"], all_names=ALL, gen_calls={"run_task_sync"})
 
 def two_workflows(kind, first, slices):
@@ -97,6 +108,59 @@ def two_workflows(kind, first, slices):
     LAST_DETAIL = {"kind": kind, "first_run": {k: v[-4:] for k, v in first_run.items()}, "errors": errs, "schedule": res["schedule"], "why": why}
     return why is None
 
+def values_run(kind, first, slices):
+    """deterministic values (random, uuid, utc_now, random) requested by the same task body for two workflows"""
+    reset_uuid()
+    GOT.clear()
+    coop.CURRENT[0] = None
+    MODE[0] = 1
+    app = mk_app(kind, app_id="c18v" + kind, cached_status_time=0.0)
+    main = app.task(max_retries=50)(main_body)
+    ch = app.task(child)
+    warm_task(main); warm_task(ch)
+    APPX.clear(); APPX.update({"main": main, "child": ch})
+    ctx = runner_ctx("r1")
+    invs = [main(0), main(1)]
+    actors = []
+    for i in (0, 1):
+        iid = invs[i].invocation_id
+        obj = app.state_backend.get_invocation(iid)
+        app.orchestrator.set_invocation_status(iid, St.PENDING, ctx)
+        actors.append(coop.Actor(f"wf{i}", obj.run__gen(ctx)))
+    res = coop.run_schedule(actors, first, slices)
+    errs = [a.name + ":" + repr(a.error)[:100] for a in actors if a.error is not None]
+    coop.close_all_connections()
+    MODE[0] = 0
+    return dict(GOT), errs, res
+
+def two_workflows_values(kind, first, slices):
+    """interleaved at line level the two workflows get exactly the values they get when they run one after the other (same ids)"""
+    global LAST_DETAIL
+    if kind not in REF:
+        REF[kind] = values_run(kind, 0, [])[:2]       # the sequential run is the same for every schedule: computed once per process
+    ref, errs0 = REF[kind]
+    got, errs, res = values_run(kind, first, slices)
+    why = None
+    if errs0 or errs or res["deadlock"]:
+        why = "C18:concurrent-values:deadlock-or-error"
+    elif set(ref) != {0, 1} or set(got) != {0, 1}:
+        why = "C18:concurrent-values:body-did-not-finish"
+    elif got != ref:
+        why = "C18:concurrent-values:value-differs-from-the-sequential-run"
+    elif ref[0][0] == ref[1][0] or ref[0][1] == ref[1][1]:
+        why = "C18:concurrent-values:value-shared-between-workflows"
+    LAST_DETAIL = {"kind": kind, "sequential": {k: v[:2] for k, v in ref.items()}, "interleaved": {k: v[:2] for k, v in got.items()}, "errors": errs, "schedule": res["schedule"], "why": why}
+    return why is None
+
+def concurrent_values___KIND__(first: int, k1: int, k2: int) -> bool:
+    """
+    pre: 0 <= first <= 0 and 0 <= k1 <= VKMAX and 0 <= k2 <= 28
+    post: _
+    """
+    kk2 = 3 * k2        # the second workflow's slice in units of 3 steps (the first workflow's preemption point is exact)
+    with NoTracing():
+        return two_workflows_values(["mem", "sqlite"][__KIND__], first, [k1, kk2])
+
 def concurrent___KIND__(first: int, k1: int, k2: int) -> bool:
     """
     pre: 0 <= first <= 1 and 0 <= k1 <= KMAX and 0 <= k2 <= KMAX
@@ -145,15 +209,17 @@ def run(ctx: Ctx) -> None:
     kmax = 35   # an actor (run twin + execute_task twin) has about 21 yield points
     src = SRC
     conds = []
-    head, f = SRC.split("def concurrent___KIND__")
-    f = "def concurrent___KIND__" + f
+    head, f = SRC.split("def values_run(kind, first, slices):")
+    f = "def values_run(kind, first, slices):" + f
     src = head
     for kind in (0, 1):
         src += f.replace("__KIND__", str(kind))
         conds.append(Cond(f"concurrent_{kind}", "confirm", 1500, keyfn=_key_from_replay))
+        conds.append(Cond(f"concurrent_values_{kind}", "confirm", 1500, keyfn=_key_from_replay))
     src += EXTRA
     conds += [Cond("sched_twin", "refute", 60), Cond("canary_shared_record_key", "refute", 300)]
-    ctx.ch_batch("c18sched", src.replace("KMAX", str(kmax)), conds)
+    ctx.ch_batch("c18sched", src.replace("VKMAX", "82").replace("KMAX", str(kmax)), conds)
     ctx.functions_encoded += ["DeterministicExecutor.execute_task (line-level twin) inside DistributedInvocation.run twins of two workflows; WorkflowContext.deterministic; state backend workflow data"]
+    ctx.bounds["concurrent values"] = "2 workflows of one task requesting random, uuid, utc_now, random through the real twins (closures included), first workflow preempted at any of its 0..82 steps, the second runs 0..84 steps (units of 3), compared with the sequential run of the same two workflows; both backends"
     ctx.bounds["concurrent workflows"] = f"2 workflows of one task, identical sub-call, first actor + 2 preemptions with slices 0..{kmax}, then a sequential replay of each; both backends"
     ctx.stubs += ["pynenc.context.thread_local -> per-actor storage", "threading / Future in workflow_deterministic -> cooperative stand-ins (only matter if the executor uses them)"]
